@@ -29,9 +29,10 @@ IMPORTS = 'From PyRTL Require Import Analysis.C17Harness.'
 IMPORTS_FREQ = ('From Coq Require Import ZArith QArith.\n'
                 'From PyRTL Require Import Gen.TimingFormula.')
 COQ_TARGETS = ['theories/Analysis/C17Harness.vo', 'theories/Gen/TimingFormula.vo']
-TRUSTED = ['Analysis/PathSpec.v: rpath (weight of a register-free path from an Input/Const/Register), '
-           'chain / simple_path (net paths incl. the memory write->read hop), reads (argument positions)',
-           'py/checks/C17.py brute-force enumerators (all_path_sums, simple_paths, position count)']
+TRUSTED = ['Analysis/PathSpec.v: cpath/wsum/is_longest (maximum over register-free paths from an Input/Const/'
+           'Register of the summed delays), chain/visits/simple_path (net paths incl. the memory write->read '
+           'hop; no net and no wire repeated), reads/fanout_is (cardinality of the set of argument positions)',
+           'py/checks/C17.py brute-force enumerators (all_path_sums, max_paths, simple_paths, position count)']
 ASSUMPTIONS = ['delays are integers: float rounding of the default log-based delay table is abstracted; the '
                'default table is compared only through delay-free facts (sources at 0, zero-delay w/c/s, '
                'critical paths follow an argmax argument and end at a max wire)',
@@ -201,7 +202,10 @@ def build(ctx, i):
 
 class Graph(object):
     def __init__(self, block):
-        self.nets = list(block.logic)
+        # block.logic is a set hashed by object address: sort for run-to-run determinism
+        self.nets = sorted(block.logic, key=lambda n: (n.dests[0].name if n.dests else '', n.op,
+                                                        [a.name for a in n.args], str(n.op_param)
+                                                        if n.op == 's' else ''))
         self.producer = {}
         self.readers = {}
         self.readports = {}
@@ -320,7 +324,7 @@ def reachable(g, src):
                 if id(d) not in seen:
                     seen[id(d)] = d
                     todo.append(d)
-    return list(seen.values())
+    return sorted(seen.values(), key=lambda w: w.name)
 
 
 # ----------------------------------------------------------------------------
@@ -618,7 +622,9 @@ def run(ctx, only=None):
         wf, m_tm, m_keys, m_max, m_cp, m_fan, m_paths = results[ci]
         rep = dict(c['rep'], queries=c['queries'])
         if wf != 1:
-            ctx.model_mismatch('wfb is false on the dump of an API-built design (case %d)' % c['i'], rep)
+            ctx.model_mismatch('a hypothesis of the C17 theorems (wfb / delays negative exactly on r,@ / register '
+                               'nets drive registers / single driver) is false on the dump of an API-built '
+                               'design (case %d)' % c['i'], rep)
         bad = []
         if list(m_tm) != c['impl_tm']:
             bad.append(('timing_map', list(m_tm), c['impl_tm']))
